@@ -5,7 +5,7 @@ from ..core import rule
 from ..index import AnalysisError, dotted, src, walk_no_nested, names_in
 from ..cfg import CFG, eval3, UNK
 from ..domains import check_pred, linform, Lin, assignments, eval_pred
-from ..util import node_calls, pred_is, cfg_nodes_containing, explore, mk_atoms
+from ..util import node_calls, pred_is, cfg_nodes_containing, explore, mk_atoms, enclosing_loops
 from .slots import BARCODEPARSER
 
 CLS = 'BarcodeParser'
@@ -15,17 +15,31 @@ CLS = 'BarcodeParser'
                        'origin, index and distance all come from the minimal candidate')
 def r1(ctx):
     f = ctx.fn(BARCODEPARSER, f'{CLS}.expand')
-    loops = [l for l in f.body if isinstance(l, ast.For) and 'hammingSpace' in src(l.iter) and isinstance(l.target, ast.Name)]
+    # the resolution loop: over the keys of the candidate table, or over its items()
+    loops = [l for l in f.body if isinstance(l, ast.For) and 'hammingSpace' in names_in(l.iter) and
+             any(isinstance(c, ast.Call) and src(c.func) == 'self.addBarcode' for c in walk_no_nested(l))]
     if len(loops) != 1:
         raise AnalysisError('expand: resolution loop over the hamming space not found')
     l = loops[0]
-    key = l.target.id
+    valvar = None
+    if isinstance(l.target, ast.Name):
+        key = l.target.id
+    elif isinstance(l.target, ast.Tuple) and len(l.target.elts) == 2 and all(isinstance(e, ast.Name) for e in l.target.elts) and src(l.iter).endswith('.items()'):
+        key, valvar = l.target.elts[0].id, l.target.elts[1].id
+    else:
+        raise AnalysisError('expand: target of the resolution loop not understood')
     srt = [s for s in l.body if isinstance(s, ast.Assign) and isinstance(s.value, ast.Call) and dotted(s.value.func) == 'sorted']
     if len(srt) != 1:
         ctx.emit('C03-R1', False, BARCODEPARSER, l, 'candidates are not sorted by distance before the tie test', key='tie-guard', undecided=True)
         return
     sv = srt[0].targets[0].id
-    okarg = src(srt[0].value.args[0]) == f'hammingSpace[{key}]' and not srt[0].value.keywords
+    okarg = src(srt[0].value.args[0]) in ((f'hammingSpace[{key}]',) + ((valvar,) if valvar else ())) and not srt[0].value.keywords
+    # locals unpacked from the best candidate are aliases of its distance / origin: `d, o = sorted_list[0]`
+    alias = {}
+    for s_ in walk_no_nested(l):
+        if isinstance(s_, ast.Assign) and len(s_.targets) == 1 and isinstance(s_.targets[0], ast.Tuple) and len(s_.targets[0].elts) == 2 and src(s_.value) == f'{sv}[0]' \
+                and isinstance(s_.targets[0].elts[0], ast.Name):
+            alias[s_.targets[0].elts[0].id] = 'd0'
     calls = [c for c in walk_no_nested(l) if isinstance(c, ast.Call) and src(c.func) == 'self.addBarcode']
     if len(calls) != 1:
         raise AnalysisError('expand: registration call self.addBarcode not found in the resolution loop')
@@ -33,6 +47,8 @@ def r1(ctx):
 
     def atom(x):
         s_ = src(x)
+        if isinstance(x, ast.Name) and x.id in alias:
+            return alias[x.id]
         return {f'len({sv})': 'n', f'{sv}[0][0]': 'd0', f'{sv}[1][0]': 'd1', f'{sv}[-1][0]': 'dl'}.get(s_)
     cons = lambda e: e['n'] >= 1 and 0 <= e['d0'] <= e['d1'] <= e['dl'] and (e['n'] != 2 or e['dl'] == e['d1']) and (e['n'] != 1 or e['dl'] == e['d0'])
     # Abstract interpretation of one iteration over every abstract candidate list (n, d0 <= d1 <= d_last): tests over the sorted candidate
@@ -53,7 +69,7 @@ def r1(ctx):
             if node.kind == 'test' and label in ('true', 'false') and isinstance(node.ast, ast.If):
                 t = node.ast.test
                 v = UNK
-                if sv in names_in(t):
+                if sv in names_in(t) or (names_in(t) & set(alias)):
                     try:
                         v = bool(eval_pred(t, case, atom))
                     except Exception:
@@ -114,7 +130,7 @@ def r1(ctx):
             detail = f'addBarcode(barcode={src(kw.get("barcode"))}, index={src(idx) if idx is not None else None}, hammingDistance={src(kw.get("hammingDistance"))}, originBarcode={src(kw.get("originBarcode"))}) with ({dv}, {ov}) = {v}'
     ctx.emit('C03-R1', ok, BARCODEPARSER, reg, detail, key='registration-provenance')
     # candidates are (distance, origin) tuples so that sorting orders by distance first
-    app = [c for c in walk_no_nested(f) if isinstance(c, ast.Call) and isinstance(c.func, ast.Attribute) and c.func.attr == 'append' and 'hammingSpace[' in src(c.func.value)]
+    app = [c for c in walk_no_nested(f) if isinstance(c, ast.Call) and isinstance(c.func, ast.Attribute) and c.func.attr == 'append' and 'hammingSpace' in names_in(c.func.value)]
     ok = len(app) == 1 and isinstance(app[0].args[0], ast.Tuple) and [src(e) for e in app[0].args[0].elts] == ['hammingDistance', 'barcode']
     ctx.emit('C03-R1', ok, BARCODEPARSER, app[0] if app else f, 'candidates are stored as (distance, origin): sorting orders by distance first', key='candidate-tuple-order')
     ab = ctx.fn(BARCODEPARSER, f'{CLS}.addBarcode')
@@ -145,13 +161,22 @@ def r3(ctx):
     ctx.emit('C03-R3', ok, BARCODEPARSER, hc[0] if hc else f, f'alphabet {alpha!r}' + (': 4 alternatives per position over {A,C,G,T,N}' if ok else
              ': not the five letters A,C,G,T,N -> some observed / whitelisted letters are never produced as substitution'), key='alphabet',
              what='expand: candidate alphabet is not {A,C,G,T,N}')
-    okargs = len(hc) == 1 and [src(a) for a in hc[0].args[:2]] == ['barcode', 'hammingDistance']
+    okargs = False
+    if len(hc) == 1 and len(hc[0].args) >= 2:
+        enc = enclosing_loops(f, hc[0])
+        rl = [l_ for l_ in enc if isinstance(l_.iter, ast.Call) and dotted(l_.iter.func) == 'range' and isinstance(l_.target, ast.Name)]
+        wl = [l_ for l_ in enc if l_ not in rl and isinstance(l_.target, ast.Name) and ('barcodes' in src(l_.iter))]
+        okargs = bool(rl) and bool(wl) and src(hc[0].args[0]) == wl[0].target.id and src(hc[0].args[1]) == rl[-1].target.id
     ctx.emit('C03-R3', okargs, BARCODEPARSER, hc[0] if hc else f, 'hamming_circle is called with (whitelisted barcode, distance, alphabet)', key='circle-arguments', nontrivial=False)
     g = ctx.fn(BARCODEPARSER, 'hamming_circle')
     s_, n_, a_ = [x.arg for x in g.args.args]
     loops = [l for l in walk_no_nested(g) if isinstance(l, ast.For)]
-    sig = [src(l.iter) for l in sorted(loops, key=lambda l: l.lineno)]
-    ok = len(sig) == 3 and sig[0] == f'itertools.combinations(range(len({s_})), {n_})' and sig[1] == f'itertools.product(range(len({a_}) - 1), repeat={n_})' and sig[2].startswith('zip(')
+    # the three nested loops, outermost first (whether itertools is imported as a module or by name)
+    def depth(l_):
+        return sum(1 for o_ in loops if o_ is not l_ and any(x is l_ for x in ast.walk(o_)))
+    loops = sorted(loops, key=depth)
+    sig = [src(l.iter).replace('itertools.', '') for l in loops]
+    ok = len(sig) == 3 and sig[0] == f'combinations(range(len({s_})), {n_})' and sig[1] == f'product(range(len({a_}) - 1), repeat={n_})' and sig[2].startswith('zip(')
     ctx.emit('C03-R3', ok, BARCODEPARSER, g, f'hamming_circle: positions {sig[0] if sig else None}; replacements {sig[1] if len(sig) > 1 else None}', key='circle-enumeration')
     ifs = [i for i in walk_no_nested(g) if isinstance(i, ast.If)]
     ok = len(ifs) == 1 and isinstance(ifs[0].test, ast.Compare) and isinstance(ifs[0].test.ops[0], ast.Eq) and f'{a_}[' in src(ifs[0].test) and \
